@@ -615,6 +615,10 @@ ToGcc(gr) == [i \in DOMAIN gr.stmts |-> IF gr.stmts[i].deps = "depfile" THEN [gr
 CleanGraphs(K) ==
   UNION {GraphsS(sh, {"plain", "restat", "gen", "genb", "genc", "two", "iout", "rsp", "depfile", "gcc"}, K) : sh \in {"chain2", "chain3", "fanin", "fanout", "mixed", "alias", "group", "indep", "valid", "oonly"}}
   \cup DynGraphs
+\* graphs for the design-level model of the cleaner (spec/Clean.tla): TLC adds the files that exist, the log and the scope
+FamCleanMC(K, CH) ==
+  UNION {GraphsS(sh, {"plain", "gen", "two", "iout", "rsp", "depfile", "gcc"}, K) : sh \in {"chain2", "fanin", "alias", "valid", "oonly"}}
+  \cup {x \in DynGraphs : Len(x.stmts) <= 3} \cup Pick(3, CycGraphs(1))
 FamClean(K, CH) ==
   UNION { {Scn(gr, <<Build(Roots(gr), 2, 1), c, Build(Roots(gr), 2, 1), Build(Roots(gr), 2, 1)>>) : c \in Pick(CH, CleanOps(gr))}
           \cup {Scn(gr, <<Build(Roots(gr), 2, 1), d, c, Build(Roots(gr), 2, 1)>>) :
@@ -720,6 +724,7 @@ Family(name) ==
     [] name = "mc" -> FamMC(ParK, ParCH)
     [] name = "mcpools" -> FamMCPools(ParK, ParCH)
     [] name = "clean" -> FamClean(ParK, ParCH)
+    [] name = "cleanmc" -> FamCleanMC(ParK, ParCH)
     [] name = "restat" -> FamRestat(ParK, ParCH)
     [] name = "dry" -> FamDry(ParK, ParCH)
     [] name = "editrun" -> FamEditRun(ParK, ParCH)
